@@ -21,7 +21,7 @@ func init() {
 			"Roland checksum rule: (sum of address + payload/size bytes + checksum) mod 128 == 0",
 			"ids and addresses are 7-bit values (sysex data bytes)",
 		},
-		Require: []string{"dataset_values", "request_values", "corruptions_rejected", "checksum_nonzero", "locate_values", "command_values", "held_across_later_build"},
+		Require: []string{"dataset_values", "request_values", "corruptions_rejected", "checksum_nonzero", "locate_values", "command_values", "held_across_later_build", "reparse_after_modification"},
 		Run:     runC18,
 	})
 }
@@ -109,6 +109,17 @@ func runC18(c *mon.Ctx) {
 			c.Violation("parse-differs", fmt.Sprintf("Parse(SysEx()) = %+v, built from %+v", short(*p), short(m)), short(m), short(m), short(*p))
 		} else {
 			c.Count("parsed_back", 1)
+			// a caller may modify the value it got back; an independent later round trip of the same
+			// value must not be affected (no state shared between parse results)
+			for j := range p.SendingData {
+				p.SendingData[j] ^= 0x55
+			}
+			p.Address[0] ^= 0x7F
+			bt = m.SysEx() // fresh bytes (the parse result may alias the input slice)
+			if p2, err := sysex.Parse(bt); err != nil || p2.Address != m.Address || !bytes.Equal(p2.SendingData, m.SendingData) || p2.NumReqBytes != m.NumReqBytes {
+				c.Violation("parse-after-modification", fmt.Sprintf("after modifying an earlier parse result in place, a fresh round trip of the same value gives %+v, %v", p2, err), short(m), short(m), fmt.Sprint(p2, err))
+			}
+			c.Count("reparse_after_modification", 1)
 		}
 		// every single-byte corruption of address, body, checksum
 		for pos := 5; pos <= len(bt)-2; pos++ {
@@ -149,7 +160,17 @@ func runC18(c *mon.Ctx) {
 
 	// the library's own documented example must parse
 	c.Each("gmreset", 1, func(_ int64, _ *mon.Rand) {
+		// twice, with the first result modified in place in between
+		if p0, err := sysex.Parse(sysex.GMReset.SysEx()); err == nil {
+			for j := range p0.SendingData {
+				p0.SendingData[j] = 0x7F
+			}
+			p0.Address = [3]byte{1, 2, 3}
+		}
 		bt := sysex.GMReset.SysEx()
+		if mon.Hex(bt) != "F0 41 10 42 12 40 00 7F 00 41 F7" {
+			c.Violation("gmreset-changed", "the exported GMReset value no longer builds its documented bytes: "+mon.Hex(bt), nil, "F0 41 10 42 12 40 00 7F 00 41 F7", mon.Hex(bt))
+		}
 		p, err := sysex.Parse(bt)
 		c.Count("dataset_values", 1)
 		if err != nil || p.Address != sysex.GMReset.Address || !bytes.Equal(p.SendingData, sysex.GMReset.SendingData) {
